@@ -4,6 +4,8 @@
    the Waitsome loops of the same file are co-simulated against the real code on every run. *)
 From Coq Require Import Arith List Bool PeanoNat Permutation ZArith.
 From ScV Require Import C05.PsortModel C05.PsortPerm C05.PsortOwner C05.PsortWait C05.PsortDist.
+From Coq Require Import Sorted.
+From ScV Require Import C05.PsortZeroOne.
 Import ListNotations.
 
 (* (a) permutation and counts: for every count vector (zeros included), every element type, every comparison
@@ -104,4 +106,49 @@ Proof.
   split; (split; [intros a [<-|[<-|H]]; try discriminate; try (destruct H as [<-|[]]; discriminate); destruct H|]).
   - simpl. apply perm_trans with [0;2;1]; [apply perm_swap|apply perm_skip, perm_swap].
   - simpl. apply perm_swap.
+Qed.
+
+(* ---- (d) SORTEDNESS of the comparator network --------------------------------------------------------------------
+   Setting of all theorems below: `le` is what `compar (a, b) <= 0` means - total and transitive (a total preorder:
+   duplicate keys and different elements that compare equal are allowed); `gt_of A le a b = negb (le a b)` is what
+   `compar (a, b) > 0` means; `sort` has the contract of qsort as sc_psort calls it (a permutation; ascending with
+   compar for dir = true, descending - i.e. ascending for the inverted comparison - for dir = false). *)
+
+(* a monotone map into {false < true} commutes with EVERY list of compare-exchange / local-sort operations; on the
+   Boolean side the local sort is the counting sort `sortb` *)
+Theorem C05_monotone_map_commutes : forall (A : Type) (le : A -> A -> bool),
+  (forall a b, le a b = true \/ le b a = true) ->
+  (forall a b c, le a b = true -> le b c = true -> le a c = true) ->
+  forall sort : bool -> list A -> list A,
+  (forall d l, Permutation (sort d l) l) ->
+  (forall l, Sorted (fun a b => le a b = true) (sort true l)) ->
+  (forall l, Sorted (fun a b => le b a = true) (sort false l)) ->
+  forall f : A -> bool, (forall a b, le a b = true -> f a = true -> f b = true) ->
+  forall ops l, map f (run A (gt_of A le) sort ops l) = run bool gtb sortb ops (map f l).
+Proof. exact run_map. Qed.
+Print Assumptions C05_monotone_map_commutes.
+
+(* the 0-1 principle for this operation language: a list of operations that sorts every 0-1 list of length n sorts
+   every list of length n over every total preorder *)
+Theorem C05_zero_one_principle : forall (A : Type) (le : A -> A -> bool),
+  (forall a b, le a b = true \/ le b a = true) ->
+  (forall a b c, le a b = true -> le b c = true -> le a c = true) ->
+  forall sort : bool -> list A -> list A,
+  (forall d l, Permutation (sort d l) l) ->
+  (forall l, Sorted (fun a b => le a b = true) (sort true l)) ->
+  (forall l, Sorted (fun a b => le b a = true) (sort false l)) ->
+  forall ops l,
+  (forall bl : list bool, length bl = length l ->
+     StronglySorted (fun a b => leb01 a b = true) (run bool gtb sortb ops bl)) ->
+  StronglySorted (fun a b => le a b = true) (run A (gt_of A le) sort ops l).
+Proof. exact zero_one_principle. Qed.
+Print Assumptions C05_zero_one_principle.
+
+(* the hypotheses on the local sort are satisfiable: the counting sort of 0-1 lists fulfils the contract *)
+Example C05_ex_sort_contract :
+  (forall d l, Permutation (sortb d l) l) /\
+  (forall l, Sorted (fun a b => leb01 a b = true) (sortb true l)) /\
+  (forall l, Sorted (fun a b => leb01 b a = true) (sortb false l)).
+Proof.
+  split; [exact sortb_perm|split; intros l; apply StronglySorted_Sorted; [apply sortb_sorted_asc|apply sortb_sorted_desc]].
 Qed.
